@@ -36,6 +36,7 @@ def shards(tier, seed):
                     "reps": 6 if tier == "quick" else 60})
     for i in range(2 if tier == "quick" else 6):
         out.append({"name": f"node{i}", "kind": "node", "n": 120 if tier == "quick" else 1500})
+    out.append({"name": "registered", "kind": "registered", "ids": 2 if tier == "quick" else 6})
     return out
 
 
@@ -172,6 +173,82 @@ def run_to_answer(cx, spec, rng):
         if len(cx.samples) < 3:
             cx.samples.append({"code": code, "class": base.__name__ if base else "unknown", "flag_octets": 256,
                                "ids": [hex(i) for i in ids]})
+
+
+def run_registered(cx, spec, rng):
+    """Commands added at run time with commands.register() (own process: the registry is global): written like the
+    library's own (a command class with ...Request / ...Answer subclasses) with and without a type_factory of their
+    own, one without subclasses, one whose subclasses are defined only after the registration. Every construction route
+    x all 256 flag octets, before and after the registration where the route exists before."""
+    from diameter.message import Message, DefinedMessage
+    from diameter.message import commands
+    from diameter.message.avp.generator import AvpGenDef
+    from diameter.message.commands._attributes import assign_attr_from_defs
+
+    def command(name, code):
+        def post(self):
+            self.header.command_code = self.code
+            DefinedMessage.__post_init__(self)
+        return type(name, (DefinedMessage,), {"code": code, "name": name, "__post_init__": post,
+                                              "__annotations__": {"code": int, "name": str}})
+
+    def variant(base, suffix, is_request):
+        defs = (AvpGenDef("session_id", 263, is_required=True), AvpGenDef("origin_host", 264, is_required=True),
+                AvpGenDef("origin_realm", 296, is_required=True))
+
+        def post(self):
+            base.__post_init__(self)
+            self.header.is_request = is_request
+            assign_attr_from_defs(self, self._avps)
+            self._avps = []
+        return type(base.__name__ + suffix, (base,), {"avp_def": defs, "__post_init__": post})
+
+    Poll = command("VerifQuotaPoll", 8388001)          # request / answer pair, type_factory left at its default
+    PollReq, PollAns = variant(Poll, "Request", True), variant(Poll, "Answer", False)
+    Push = command("VerifQuotaPush", 8388002)          # the same, type_factory as in the documentation's example
+    PushReq, PushAns = variant(Push, "Request", True), variant(Push, "Answer", False)
+    Push.type_factory = classmethod(lambda cls, header: PushReq if header.is_request else PushAns)
+    Solo = command("VerifSolo", 8388003)               # no request / answer classes at all
+    Late = command("VerifLate", 8388004)               # registered first, request / answer classes defined afterwards
+    body = R.enc_avp(263, b"sess;1", 0, 0x40) + R.enc_avp(264, b"peer.example", 0, 0x40) + \
+        R.enc_avp(296, b"example", 0, 0x40)
+    ids = IDS[:spec["ids"]]
+    rp = {"op": "registered"}
+
+    def sweep(phase, classes):
+        for code, req_cls in classes:
+            for fl in range(256):
+                for k, ident in enumerate(ids):
+                    hbh, e2e = ident, ids[(k + 1) % len(ids)] ^ 0x5a5a
+                    wire = R.enc_msg(code, app=APPS[(fl + k) % len(APPS)], flags=fl, hbh=hbh, e2e=e2e, avps=body)
+                    for plain in (False, True):
+                        try:
+                            m = Message.from_bytes(wire, plain_msg=plain)
+                        except Exception as e:
+                            cx.witness(f"decode.raises.{type(e).__name__}", {"code": code, "phase": phase}, rp)
+                            continue
+                        one(cx, m, f"registered-{phase}-decoded" + ("-plain" if plain else ""), rp)
+                    if req_cls is not None and k == 0:
+                        mc = req_cls()
+                        mc.header.hop_by_hop_identifier, mc.header.end_to_end_identifier = hbh, e2e
+                        mc.header.is_proxyable = bool(fl & 0x40)
+                        mc.header.is_error = bool(fl & 0x20)
+                        mc.header.is_retransmit = bool(fl & 0x10)
+                        one(cx, mc, f"registered-{phase}-constructed", rp)
+            cx.cov["registered_command_sweeps"] = cx.cov.get("registered_command_sweeps", 0) + 1
+
+    everything = [(8388001, PollReq), (8388002, PushReq), (8388003, Solo), (8388004, None)]
+    # still unknown codes: generic answers (the dispatch model is told what register() has been told so far)
+    cx.table = cx.contracts._TABLE = {k: v for k, v in cx.L.command_table().items() if k < 8388001 or k > 8388004}
+    sweep("before", [(c, None) for c, _ in everything])
+    for c in (Poll, Push, Solo, Late):
+        commands.register(c)
+    cx.table = cx.contracts._TABLE = cx.L.command_table()
+    sweep("after", everything)
+    LateReq, LateAns = variant(Late, "Request", True), variant(Late, "Answer", False)
+    sweep("late-subclasses", [(8388004, LateReq), (8388001, PollReq)])
+    cx.samples.append({"registered": ["pair with default type_factory", "pair with own type_factory", "no subclasses",
+                                      "subclasses defined after register()"], "flag_octets": 256})
 
 
 def proxy_info_bytes(n, rng):
@@ -466,7 +543,8 @@ def run_shard(spec):
     logging.getLogger("diameter").setLevel(logging.CRITICAL)
     cx = Ctx(spec)
     rng = random.Random(h64("C20", spec["seed"], spec["name"]))
-    {"to_answer": run_to_answer, "generated": run_generated, "node": run_node_workload}[spec["kind"]](cx, spec, rng)
+    {"to_answer": run_to_answer, "generated": run_generated, "node": run_node_workload,
+     "registered": run_registered}[spec["kind"]](cx, spec, rng)
     return cx.result()
 
 
@@ -480,6 +558,8 @@ def replay(obj):
     elif obj.get("op") == "wire":
         m = Message.from_bytes(bytes.fromhex(obj["wire"]), plain_msg=bool(obj.get("plain")))
         one(cx, m, "replay", obj)
+    elif obj.get("op") == "registered":
+        run_registered(cx, {"ids": 2}, random.Random(0))
     elif obj.get("op") == "node_origin":
         run_node_origin(cx)
     elif obj.get("op") == "generated":
@@ -501,6 +581,8 @@ def finish(tier, seed, cov, evaluations):
     for r in ("decoded", "decoded-plain", "constructed"):
         if cov.get("routes", {}).get(r, 0) == 0:
             out.append(f"construction route {r} never exercised")
+    if cov.get("registered_command_sweeps", 0) == 0:
+        out.append("commands registered at run time never exercised")
     for g in ("node.typed", "app.typed", "node.untyped", "app.untyped"):
         if cov.get("generated", {}).get(g, 0) == 0:
             out.append(f"generated-answer kind {g} never exercised")
